@@ -23,7 +23,9 @@
 (*  ReleasedAccessorNeverHoldsBack : low_water_mark() returns at least the *)
 (*       smallest epoch a region that was (possibly) open at some point of *)
 (*       the call can have entered with - in particular UINT64_MAX when no *)
-(*       region was open: unlocked / released accessors do not count.      *)
+(*       region was open: unlocked / released accessors do not count; a    *)
+(*       region also ends when its accessor is released while locked       *)
+(*       (reported as ReleasedWhileLockedHoldsBack once that happened).    *)
 (***************************************************************************)
 EXTENDS Naturals, Integers, Sequences, FiniteSets, TLC, Json, IOUtils
 
@@ -46,31 +48,33 @@ VARIABLES l,
           inLw,      \* threads executing low_water_mark
           ticks,     \* number of ticks that returned
           reclaimed, \* objects the client reclaimed
+          dropped,   \* some accessor was released while locked (witness class of its own)
           bad
-mvars == <<l, depth, busy, lower, nested, unl, bound, tickSnap, lwSnap, lwFloor, inLw, ticks, reclaimed, bad>>
+mvars == <<l, depth, busy, lower, nested, unl, bound, tickSnap, lwSnap, lwFloor, inLw, ticks, reclaimed, dropped, bad>>
 
 Fresh ==
   /\ depth' = [k \in Keys |-> 0] /\ busy' = [k \in Keys |-> FALSE] /\ lower' = [k \in Keys |-> MAXV]
   /\ nested' = [k \in Keys |-> FALSE] /\ unl' = {} /\ bound' = [k \in Keys |-> MAXV]
   /\ tickSnap' = [t \in Thrs |-> {}] /\ lwSnap' = [t \in Thrs |-> {}] /\ lwFloor' = [t \in Thrs |-> MAXV]
-  /\ inLw' = {} /\ ticks' = 0 /\ reclaimed' = {}
+  /\ inLw' = {} /\ ticks' = 0 /\ reclaimed' = {} /\ dropped' = FALSE
 
 MInit ==
   /\ l = 2 /\ Tr[1].k = "reset"
   /\ depth = [k \in Keys |-> 0] /\ busy = [k \in Keys |-> FALSE] /\ lower = [k \in Keys |-> MAXV]
   /\ nested = [k \in Keys |-> FALSE] /\ unl = {} /\ bound = [k \in Keys |-> MAXV]
   /\ tickSnap = [t \in Thrs |-> {}] /\ lwSnap = [t \in Thrs |-> {}] /\ lwFloor = [t \in Thrs |-> MAXV]
-  /\ inLw = {} /\ ticks = 0 /\ reclaimed = {}
+  /\ inLw = {} /\ ticks = 0 /\ reclaimed = {} /\ dropped = FALSE
   /\ bad = ""
   /\ TLCSet(1, 1)
 
-Flag(b, name) == IF b /\ bad = "" THEN name ELSE bad
+\* the first violated clause is kept; the class ReleasedWhileLockedHoldsBack yields to any other clause
+Flag(b, name) == IF b /\ (bad = "" \/ (bad = "ReleasedWhileLockedHoldsBack" /\ name # bad)) THEN name ELSE bad
 KeyOf(e) == IF e.h = 0 THEN 10 + e.t ELSE e.h
 MinOf(a, b) == IF a <= b THEN a ELSE b
 PossiblyOpen == {k \in Keys : depth[k] >= 1 \/ busy[k]}
 SetMin(S) == IF S = {} THEN MAXV ELSE CHOOSE x \in S : \A y \in S : x <= y
 
-Same(vs) == UNCHANGED vs
+Same(vs) == UNCHANGED vs /\ UNCHANGED dropped
 
 MCall(e) ==
   LET k == KeyOf(e) IN
@@ -99,6 +103,16 @@ MCall(e) ==
          /\ inLw' = inLw \cup {e.t}
          /\ bad' = bad
          /\ Same(<<depth, busy, lower, nested, unl, bound, tickSnap, ticks, reclaimed>>)
+    [] e.op = "release" ->
+         \* a region that is still open ends with the release of its accessor
+         /\ depth' = [depth EXCEPT ![k] = 0]
+         /\ busy' = [busy EXCEPT ![k] = TRUE]
+         /\ nested' = [nested EXCEPT ![k] = FALSE]
+         /\ unl' = unl \ {k}
+         /\ bound' = [bound EXCEPT ![k] = MAXV]
+         /\ dropped' = (dropped \/ depth[k] >= 1)
+         /\ bad' = bad
+         /\ UNCHANGED <<lower, tickSnap, lwSnap, lwFloor, inLw, ticks, reclaimed>>
     [] OTHER -> bad' = bad /\ Same(<<depth, busy, lower, nested, unl, bound, tickSnap, lwSnap, lwFloor, inLw, ticks, reclaimed>>)
 
 MRet(e) ==
@@ -122,9 +136,14 @@ MRet(e) ==
     [] e.op = "lwm" ->
          LET held == {p \in lwSnap[e.t] : depth[p[1]] >= 1 /\ bound[p[1]] = p[2] /\ p[2] <= e.res}
          IN /\ bad' = IF held # {} THEN Flag(TRUE, IF \A p \in held : nested[p[1]] THEN "NestingCounts" ELSE "MarkHeldBack")
-                      ELSE Flag(e.res < lwFloor[e.t], "ReleasedAccessorNeverHoldsBack")
+                      ELSE Flag(e.res < lwFloor[e.t], IF dropped THEN "ReleasedWhileLockedHoldsBack" ELSE "ReleasedAccessorNeverHoldsBack")
             /\ inLw' = inLw \ {e.t}
             /\ Same(<<depth, busy, lower, nested, unl, bound, tickSnap, lwSnap, lwFloor, ticks, reclaimed>>)
+    [] e.op = "release" ->
+         /\ busy' = [busy EXCEPT ![k] = FALSE]
+         /\ lower' = [lower EXCEPT ![k] = MAXV]
+         /\ bad' = bad
+         /\ Same(<<depth, nested, unl, bound, tickSnap, lwSnap, lwFloor, inLw, ticks, reclaimed>>)
     [] OTHER -> bad' = bad /\ Same(<<depth, busy, lower, nested, unl, bound, tickSnap, lwSnap, lwFloor, inLw, ticks, reclaimed>>)
 
 MUnlink(e) ==
@@ -143,7 +162,7 @@ MReclaim(e) ==
 
 \* quiescent: every thread is through its program (all regions closed by the programs' construction)
 MFinal(e) ==
-  /\ bad' = Flag((\A k \in Keys : depth[k] = 0) /\ e.res # MAXV, "ReleasedAccessorNeverHoldsBack")
+  /\ bad' = Flag((\A k \in Keys : depth[k] = 0) /\ e.res # MAXV, IF dropped THEN "ReleasedWhileLockedHoldsBack" ELSE "ReleasedAccessorNeverHoldsBack")
   /\ Same(<<depth, busy, lower, nested, unl, bound, tickSnap, lwSnap, lwFloor, inLw, ticks, reclaimed>>)
 
 MEnd(e) ==
@@ -167,5 +186,7 @@ MNext ==
 MSpec == MInit /\ [][MNext]_mvars
 
 Holds == bad = ""
+\* the witness class "an accessor released while locked keeps holding the mark back" is reported separately
+HoldsOther == bad \in {"", "ReleasedWhileLockedHoldsBack"}
 Post == PrintT(<<"VERIF", TLCGet(1) - 1, Len(Tr), {}>>)
 =============================================================================
